@@ -3,8 +3,8 @@
 
   (a) The theorems of `CTM/Props/C17.lean` restated with the acceptance of the
       stored taxonomy by the model of `validate_taxonomy_tree` as the
-      hypothesis (see `CTM/Lemmas/BridgeWF.lean`; `HasNode`: a node at the top
-      level, not implied by the validator and necessary).
+      only hypothesis on the taxonomy, besides the modelling convention
+      `DictOK` (see `CTM/Lemmas/BridgeWF.lean`).
   (b) `drop_eq_reference_without_level`: C17 `drop_eq` ∘ C10
       `drop_commutes_build`.  "A reference whose taxonomy never had that
       level" is made literal: the taxonomy `get_taxonomy_tree` builds from the
@@ -28,7 +28,7 @@ taxonomy the validator accepts (run B's stored taxonomy is `drop_level`'s result
 theorem drop_eq_of_validate {κ} (t0 t' : RawTree) (cfg : Config) (vote : Oracle κ) (l cl : Level)
     (pre post : List Level) (ids : List CellId) (cells : List κ) (order : List Nat)
     (hdrop : t0.dropLevel l = .ok t') (hs : t0.hierarchy = pre ++ l :: cl :: post)
-    (hval : t0.validate = .ok ()) (hN : t0.hierarchy.Nodup) (hd : DictOK t0) (hnode : HasNode t0)
+    (hval : t0.validate = .ok ()) (hd : DictOK t0)
     (hv : VoteOK t' vote)
     (hlen : ids.length = cells.length) (hnd : ids.Nodup)
     (hproc : 1 ≤ cfg.nProc) (hcs : 1 ≤ cfg.chunkSize)
@@ -46,7 +46,7 @@ theorem drop_eq_of_validate {κ} (t0 t' : RawTree) (cfg : Config) (vote : Oracle
       ∃ ec pn, b.levels.lookup cl = some ec ∧
         t0.childToParent cl ec.assignment = some pn ∧
         a.levels.lookup l = some (inferred ec pn) :=
-  drop_eq t0 t' cfg vote l cl pre post ids cells order hdrop hs (wfb_of_validate hval hN hd hnode)
+  drop_eq t0 t' cfg vote l cl pre post ids cells order hdrop hs (wfb_of_validate hval hd)
     hv hlen hnd hproc hcs horder outA outB hA hB i id c hid hc
 
 example : ∀ outA outB,
@@ -62,8 +62,7 @@ example : ∀ outA outB,
         a.levels.lookup 1 = some (inferred ec pn) :=
   fun outA outB hA hB =>
     drop_eq_of_validate exTree exDropped { chunkSize := 2, nProc := 2 } exVote 1 2 [0] [] [7, 3, 9]
-      [0, 1, 2] [1, 0] (by rfl) rfl exTree_accepted.1 exTree_accepted.2.1 exTree_accepted.2.2.1
-      exTree_accepted.2.2.2 (exVote_ok _) rfl (by decide) (by decide)
+      [0, 1, 2] [1, 0] (by rfl) rfl exTree_accepted.1 exTree_accepted.2 (exVote_ok _) rfl (by decide) (by decide)
       (by decide) (by decide) outA outB hA hB 1 3 1 rfl rfl
 
 /-- "Mapping with flattening gives at the leaf level exactly the result of
@@ -72,7 +71,7 @@ is the leaf's ancestor" — for every stored taxonomy the validator accepts. -/
 theorem flatten_eq_of_validate {κ} (t0 : RawTree) (cfg : Config) (vote : Oracle κ) (ll : Level)
     (ids : List CellId) (cells : List κ) (order : List Nat)
     (hleaf : t0.leafLevel = some ll)
-    (hval : t0.validate = .ok ()) (hN : t0.hierarchy.Nodup) (hd : DictOK t0) (hnode : HasNode t0)
+    (hval : t0.validate = .ok ()) (hd : DictOK t0)
     (hv : VoteOK t0.flatten vote)
     (hlen : ids.length = cells.length) (hnd : ids.Nodup)
     (hproc : 1 ≤ cfg.nProc) (hcs : 1 ≤ cfg.chunkSize)
@@ -90,7 +89,7 @@ theorem flatten_eq_of_validate {κ} (t0 : RawTree) (cfg : Config) (vote : Oracle
         ∃ ec pn, a.levels.lookup cp.1 = some ec ∧
           t0.childToParent cp.1 ec.assignment = some pn ∧
           a.levels.lookup cp.2 = some (inferred ec pn) :=
-  flatten_eq t0 cfg vote ll ids cells order hleaf (wfb_of_validate hval hN hd hnode) hv hlen hnd
+  flatten_eq t0 cfg vote ll ids cells order hleaf (wfb_of_validate hval hd) hv hlen hnd
     hproc hcs horder outA outB hA hB i id c hid hc
 
 example : ∀ outA outB,
@@ -106,7 +105,7 @@ example : ∀ outA outB,
           a.levels.lookup cp.2 = some (inferred ec pn) :=
   fun outA outB hA hB =>
     flatten_eq_of_validate exTree { chunkSize := 2, nProc := 2 } exVote 2 [7, 3, 9] [0, 1, 2] [1, 0]
-      (by decide) exTree_accepted.1 exTree_accepted.2.1 exTree_accepted.2.2.1 exTree_accepted.2.2.2
+      (by decide) exTree_accepted.1 exTree_accepted.2
       (exVote_ok _) rfl (by decide) (by decide)
       (by decide) (by decide) outA outB hA hB 2 9 2 rfl rfl
 
@@ -116,7 +115,7 @@ around `l` is derived from the success of `drop_level`. -/
 theorem drop_both_succeed_of_validate {κ} (t0 t' : RawTree) (cfg : Config) (vote : Oracle κ)
     (l : Level) (ids : List CellId) (cells : List κ) (order : List Nat)
     (hdrop : t0.dropLevel l = .ok t')
-    (hval : t0.validate = .ok ()) (hN : t0.hierarchy.Nodup) (hd : DictOK t0) (hnode : HasNode t0)
+    (hval : t0.validate = .ok ()) (hd : DictOK t0)
     (hv : VoteOK t' vote)
     (hlen : ids.length = cells.length) (hnd : ids.Nodup)
     (hproc : 1 ≤ cfg.nProc) (hcs : 1 ≤ cfg.chunkSize)
@@ -129,22 +128,21 @@ theorem drop_both_succeed_of_validate {κ} (t0 t' : RawTree) (cfg : Config) (vot
   obtain ⟨hm, _⟩ := dropLevel_hierarchy hdrop
   obtain ⟨pre, cl, post, hs⟩ := split_of_mem_ne_getLast hm (dropLevel_not_leaf hdrop)
   exact drop_both_succeed t0 t' cfg vote l cl pre post ids cells order hdrop hs
-    (wfb_of_validate hval hN hd hnode) hv hlen hnd hproc hcs horder
+    (wfb_of_validate hval hd) hv hlen hnd hproc hcs horder
 
 example : (∃ outA, mapPipeline exTree { dropLevel := some 1, flatten := false, chunkSize := 2, nProc := 2 }
       exVote [7, 3, 9] [0, 1, 2] [1, 0] = .ok outA) ∧
     (∃ outB, mapPipeline exDropped { dropLevel := none, flatten := false, chunkSize := 2, nProc := 2 }
       exVote [7, 3, 9] [0, 1, 2] [1, 0] = .ok outB) :=
   drop_both_succeed_of_validate exTree exDropped { chunkSize := 2, nProc := 2 } exVote 1 [7, 3, 9]
-    [0, 1, 2] [1, 0] (by rfl) exTree_accepted.1 exTree_accepted.2.1 exTree_accepted.2.2.1
-    exTree_accepted.2.2.2 (exVote_ok _) rfl (by decide) (by decide) (by decide) (by decide)
+    [0, 1, 2] [1, 0] (by rfl) exTree_accepted.1 exTree_accepted.2 (exVote_ok _) rfl (by decide) (by decide) (by decide) (by decide)
 
 /-- both runs of `flatten_eq_of_validate` succeed on every validator-accepted
 stored taxonomy -/
 theorem flatten_both_succeed_of_validate {κ} (t0 : RawTree) (cfg : Config) (vote : Oracle κ)
     (ll : Level) (ids : List CellId) (cells : List κ) (order : List Nat)
     (hleaf : t0.leafLevel = some ll)
-    (hval : t0.validate = .ok ()) (hN : t0.hierarchy.Nodup) (hd : DictOK t0) (hnode : HasNode t0)
+    (hval : t0.validate = .ok ()) (hd : DictOK t0)
     (hv : VoteOK t0.flatten vote)
     (hlen : ids.length = cells.length) (hnd : ids.Nodup)
     (hproc : 1 ≤ cfg.nProc) (hcs : 1 ≤ cfg.chunkSize)
@@ -154,7 +152,7 @@ theorem flatten_both_succeed_of_validate {κ} (t0 : RawTree) (cfg : Config) (vot
       = .ok outA) ∧
     (∃ outB, mapPipeline t0.flatten { cfg with dropLevel := none, flatten := false } vote ids cells
       order = .ok outB) :=
-  flatten_both_succeed t0 cfg vote ll ids cells order hleaf (wfb_of_validate hval hN hd hnode) hv
+  flatten_both_succeed t0 cfg vote ll ids cells order hleaf (wfb_of_validate hval hd) hv
     hlen hnd hproc hcs horder
 
 example : (∃ outA, mapPipeline exTree { dropLevel := none, flatten := true, chunkSize := 2, nProc := 2 }
@@ -162,8 +160,7 @@ example : (∃ outA, mapPipeline exTree { dropLevel := none, flatten := true, ch
     (∃ outB, mapPipeline exTree.flatten { dropLevel := none, flatten := false, chunkSize := 2, nProc := 2 }
       exVote [7, 3, 9] [0, 1, 2] [1, 0] = .ok outB) :=
   flatten_both_succeed_of_validate exTree { chunkSize := 2, nProc := 2 } exVote 2 [7, 3, 9]
-    [0, 1, 2] [1, 0] (by decide) exTree_accepted.1 exTree_accepted.2.1 exTree_accepted.2.2.1
-    exTree_accepted.2.2.2 (exVote_ok _) rfl (by decide) (by decide) (by decide) (by decide)
+    [0, 1, 2] [1, 0] (by decide) exTree_accepted.1 exTree_accepted.2 (exVote_ok _) rfl (by decide) (by decide) (by decide) (by decide)
 
 /-! ### C17 `drop_eq` ∘ C10 `drop_commutes_build` -/
 
@@ -225,7 +222,7 @@ theorem drop_eq_reference_without_level {κ} (cols : List Level) (recs : List (L
   have wE : WF (fromRecordsRaw (cols.eraseIdx i) (recs.map (·.eraseIdx i))) :=
     fromRecordsRaw_wf hcE hneE (recsOK_eraseIdx hr i) (nested_eraseIdx hr hn i)
       (by simpa using hrec)
-  have hwf0 := wfb_of_WF w0 (hasNode_fromRecords hc hne hr hn hrec)
+  have hwf0 := WF_wfb w0
   have hs : (fromRecordsRaw cols recs).hierarchy =
       cols.take i ++ cols[i] :: cols[i+1] :: cols.drop (i+2) := split_at_idx cols hi1
   have hwf' := wfb_dropLevel hwf0 hd' hs
@@ -234,7 +231,7 @@ theorem drop_eq_reference_without_level {κ} (cols : List Level) (recs : List (L
     hwf0 hv' hlen hnd hproc hcs horder
   have hBE : mapPipeline (fromRecordsRaw (cols.eraseIdx i) (recs.map (·.eraseIdx i)))
       { cfg with dropLevel := none, flatten := false } vote ids cells order = .ok outB := by
-    rw [← mapPipeline_equiv e w' wE (hasNode_of_wfb hwf') hob hv' (voteOK_of_voteChild hvc _)
+    rw [← mapPipeline_equiv_wf e w' wE hob hv' (voteOK_of_voteChild hvc _)
       { cfg with dropLevel := none, flatten := false } rfl rfl ids cells order hlen hnd hproc hcs
       horder]
     exact hB
@@ -272,5 +269,183 @@ example : ∃ outA outB,
         rcases hr' with rfl | rfl | rfl | rfl <;> simp_all)
     (by simp) (by decide) minVote_child minVote_orderBlind rfl (by decide) (by decide) (by decide)
     (by decide)
+
+/-! ### C17 `flatten_eq` ∘ C10 "flatten = build from the leaf column" -/
+
+/-- "Mapping with flattening gives at the leaf level exactly the result of
+mapping against A ONE-LEVEL TAXONOMY OF THE LEAVES ..., and every coarser level
+is the leaf's ancestor."
+
+Reference A: the taxonomy built (`get_taxonomy_tree`) from the per-cell label
+columns `cols` (nested, ≥ 1 cell), mapped with `flatten = True`.  Reference B:
+the one-level taxonomy built from the LEAF COLUMN ALONE (same cells, all other
+columns removed), mapped without flattening.  `flatten()` of taxonomy A IS
+taxonomy B (`Bridge.flatten_fromRecords_eq`: equal, not only up to order — so,
+unlike `drop_eq_reference_without_level`, no hypothesis on the order
+sensitivity of the oracle is needed).  Both runs SUCCEED, return the same cells
+in the same order with the identical leaf-level dict, and in run A every coarser
+level is the copy of the level below whose assignment is its parent in taxonomy
+A, flagged not directly assigned. -/
+theorem flatten_eq_reference_leaf_column {κ} (cols : List Level) (recs : List (List Node))
+    (cfg : Config) (vote : Oracle κ) (ids : List CellId) (cells : List κ) (order : List Nat)
+    (hc : cols.Nodup) (hne : cols ≠ []) (hr : RecsOK cols recs) (hn : Nested cols recs)
+    (hrec : recs ≠ [])
+    (hv : VoteOK (fromRecordsRaw [cols.getLast hne] (recs.map (fun r => [r.getLastD 0]))) vote)
+    (hlen : ids.length = cells.length) (hnd : ids.Nodup)
+    (hproc : 1 ≤ cfg.nProc) (hcs : 1 ≤ cfg.chunkSize)
+    (horder : order.Perm (List.range
+      (chunks cells.length (effChunk cells.length cfg.nProc cfg.chunkSize)).length)) :
+    ∃ outA outB,
+      mapPipeline (fromRecordsRaw cols recs) { cfg with dropLevel := none, flatten := true } vote
+        ids cells order = .ok outA ∧
+      mapPipeline (fromRecordsRaw [cols.getLast hne] (recs.map (fun r => [r.getLastD 0])))
+        { cfg with dropLevel := none, flatten := false } vote ids cells order = .ok outB ∧
+      ∀ (j : Nat) (id : CellId) (c : κ), ids[j]? = some id → cells[j]? = some c →
+        ∃ a b, outA[j]? = some a ∧ outB[j]? = some b ∧ a.cellId = b.cellId ∧
+          a.levels.lookup (cols.getLast hne) = b.levels.lookup (cols.getLast hne) ∧
+          (b.levels.lookup (cols.getLast hne)).isSome ∧
+          ∀ cp ∈ pairsOf cols.reverse,
+            ∃ ec pn, a.levels.lookup cp.1 = some ec ∧
+              (fromRecordsRaw cols recs).childToParent cp.1 ec.assignment = some pn ∧
+              a.levels.lookup cp.2 = some (inferred ec pn) := by
+  have w0 : WF (fromRecordsRaw cols recs) := fromRecordsRaw_wf hc hne hr hn hrec
+  have hwf0 := WF_wfb w0
+  have hleaf : (fromRecordsRaw cols recs).leafLevel = some (cols.getLast hne) :=
+    List.getLast?_eq_some_getLast hne
+  have e := flatten_fromRecords_eq hc hne hr (recs := recs)
+  rw [← e] at hv ⊢
+  obtain ⟨⟨outA, hA⟩, ⟨outB, hB⟩⟩ := flatten_both_succeed _ cfg vote _ ids cells order hleaf hwf0 hv
+    hlen hnd hproc hcs horder
+  refine ⟨outA, outB, hA, hB, ?_⟩
+  intro j id c hid hcell
+  exact flatten_eq _ cfg vote _ ids cells order hleaf hwf0 hv hlen hnd hproc hcs horder outA outB
+    hA hB j id c hid hcell
+
+example : ∃ outA outB,
+    mapPipeline (fromRecordsRaw [0, 1, 2] [[10, 20, 30], [10, 21, 31], [11, 22, 32], [10, 20, 33]])
+      { dropLevel := none, flatten := true, chunkSize := 2, nProc := 2 } exVote [7, 3] [0, 1] [1, 0]
+      = .ok outA ∧
+    mapPipeline (fromRecordsRaw [2] [[30], [31], [32], [33]])
+      { dropLevel := none, flatten := false, chunkSize := 2, nProc := 2 } exVote [7, 3] [0, 1] [1, 0]
+      = .ok outB ∧
+    ∀ (j : Nat) (id : CellId) (c : Nat), [7, 3][j]? = some id → [0, 1][j]? = some c →
+      ∃ a b, outA[j]? = some a ∧ outB[j]? = some b ∧ a.cellId = b.cellId ∧
+        a.levels.lookup 2 = b.levels.lookup 2 ∧ (b.levels.lookup 2).isSome ∧
+        ∀ cp ∈ pairsOf [0, 1, 2].reverse,
+          ∃ ec pn, a.levels.lookup cp.1 = some ec ∧
+            (fromRecordsRaw [0, 1, 2] [[10, 20, 30], [10, 21, 31], [11, 22, 32],
+              [10, 20, 33]]).childToParent cp.1 ec.assignment = some pn ∧
+            a.levels.lookup cp.2 = some (inferred ec pn) :=
+  flatten_eq_reference_leaf_column [0, 1, 2] [[10, 20, 30], [10, 21, 31], [11, 22, 32], [10, 20, 33]]
+    { chunkSize := 2, nProc := 2 } exVote [7, 3] [0, 1] [1, 0] (by decide) (by decide)
+    (by intro r hr; simp at hr; rcases hr with rfl | rfl | rfl | rfl <;> rfl)
+    (by
+      intro j hj r hr r' hr' h
+      simp only [List.mem_cons, List.not_mem_nil, or_false] at hr hr'
+      have hj' : j = 0 ∨ j = 1 := by simp at hj; omega
+      rcases hj' with rfl | rfl <;> rcases hr with rfl | rfl | rfl | rfl <;>
+        rcases hr' with rfl | rfl | rfl | rfl <;> simp_all)
+    (by simp) (exVote_ok _) rfl (by decide) (by decide) (by decide) (by decide)
+
+/-! ### flatten together with drop_level (D's `flatten_ignores_drop`, `flatten_drop_eq`) -/
+
+/-- flatten TOGETHER with drop_level on a validator-accepted stored taxonomy:
+the whole output equals that of the run with flatten alone ("flattening ...
+equals mapping on the reduced taxonomy": the reduced taxonomy is the one-level
+taxonomy of the leaves either way). -/
+theorem flatten_ignores_drop_of_validate {κ} (t0 t' : RawTree) (cfg : Config) (vote : Oracle κ)
+    (l : Level) (ids : List CellId) (cells : List κ) (order : List Nat)
+    (hdrop : t0.dropLevel l = .ok t')
+    (hval : t0.validate = .ok ()) (hd : DictOK t0) (hv : VoteOK t0.flatten vote)
+    (hlen : ids.length = cells.length) (hnd : ids.Nodup)
+    (hproc : 1 ≤ cfg.nProc) (hcs : 1 ≤ cfg.chunkSize)
+    (horder : order.Perm (List.range
+      (chunks cells.length (effChunk cells.length cfg.nProc cfg.chunkSize)).length)) :
+    mapPipeline t0 { cfg with dropLevel := some l, flatten := true } vote ids cells order =
+      mapPipeline t0 { cfg with dropLevel := none, flatten := true } vote ids cells order := by
+  obtain ⟨hm, _⟩ := dropLevel_hierarchy hdrop
+  obtain ⟨pre, cl, post, hs⟩ := split_of_mem_ne_getLast hm (dropLevel_not_leaf hdrop)
+  exact flatten_ignores_drop t0 t' cfg vote l cl pre post ids cells order hdrop hs
+    (wfb_of_validate hval hd) hv hlen hnd hproc hcs horder
+
+example : mapPipeline exTree { dropLevel := some 1, flatten := true, chunkSize := 2, nProc := 2 } exVote
+      [7, 3, 9] [0, 1, 2] [1, 0] =
+    mapPipeline exTree { dropLevel := none, flatten := true, chunkSize := 2, nProc := 2 } exVote
+      [7, 3, 9] [0, 1, 2] [1, 0] :=
+  flatten_ignores_drop_of_validate exTree exDropped { chunkSize := 2, nProc := 2 } exVote 1 [7, 3, 9]
+    [0, 1, 2] [1, 0] (by rfl) exTree_accepted.1 exTree_accepted.2 (exVote_ok _) rfl (by decide)
+    (by decide) (by decide) (by decide)
+
+/-- the C17 statement for flatten AND drop_level on a validator-accepted stored
+taxonomy: "at the leaf level exactly the result of mapping against a one-level
+taxonomy of the leaves, and every coarser level is the leaf's ancestor" — the
+dropped level included. -/
+theorem flatten_drop_eq_of_validate {κ} (t0 t' : RawTree) (cfg : Config) (vote : Oracle κ)
+    (l ll : Level) (ids : List CellId) (cells : List κ) (order : List Nat)
+    (hdrop : t0.dropLevel l = .ok t') (hleaf : t0.leafLevel = some ll)
+    (hval : t0.validate = .ok ()) (hd : DictOK t0) (hv : VoteOK t0.flatten vote)
+    (hlen : ids.length = cells.length) (hnd : ids.Nodup)
+    (hproc : 1 ≤ cfg.nProc) (hcs : 1 ≤ cfg.chunkSize)
+    (horder : order.Perm (List.range
+      (chunks cells.length (effChunk cells.length cfg.nProc cfg.chunkSize)).length))
+    (outA outB : List Record)
+    (hA : mapPipeline t0 { cfg with dropLevel := some l, flatten := true } vote ids cells order
+      = .ok outA)
+    (hB : mapPipeline t0.flatten { cfg with dropLevel := none, flatten := false } vote ids cells order
+      = .ok outB)
+    (i : Nat) (id : CellId) (c : κ) (hid : ids[i]? = some id) (hc : cells[i]? = some c) :
+    ∃ a b, outA[i]? = some a ∧ outB[i]? = some b ∧ a.cellId = b.cellId ∧
+      a.levels.lookup ll = b.levels.lookup ll ∧ (b.levels.lookup ll).isSome ∧
+      ∀ cp ∈ pairsOf t0.hierarchy.reverse,
+        ∃ ec pn, a.levels.lookup cp.1 = some ec ∧
+          t0.childToParent cp.1 ec.assignment = some pn ∧
+          a.levels.lookup cp.2 = some (inferred ec pn) := by
+  obtain ⟨hm, _⟩ := dropLevel_hierarchy hdrop
+  obtain ⟨pre, cl, post, hs⟩ := split_of_mem_ne_getLast hm (dropLevel_not_leaf hdrop)
+  exact flatten_drop_eq t0 t' cfg vote l cl ll pre post ids cells order hdrop hs hleaf
+    (wfb_of_validate hval hd) hv hlen hnd hproc hcs horder outA outB hA hB i id c hid hc
+
+/-- both runs of `flatten_drop_eq_of_validate` succeed (non-vacuity of the
+statement above, for every validator-accepted stored taxonomy) -/
+theorem flatten_drop_both_succeed_of_validate {κ} (t0 t' : RawTree) (cfg : Config)
+    (vote : Oracle κ) (l ll : Level) (ids : List CellId) (cells : List κ) (order : List Nat)
+    (hdrop : t0.dropLevel l = .ok t') (hleaf : t0.leafLevel = some ll)
+    (hval : t0.validate = .ok ()) (hd : DictOK t0) (hv : VoteOK t0.flatten vote)
+    (hlen : ids.length = cells.length) (hnd : ids.Nodup)
+    (hproc : 1 ≤ cfg.nProc) (hcs : 1 ≤ cfg.chunkSize)
+    (horder : order.Perm (List.range
+      (chunks cells.length (effChunk cells.length cfg.nProc cfg.chunkSize)).length)) :
+    (∃ outA, mapPipeline t0 { cfg with dropLevel := some l, flatten := true } vote ids cells order
+      = .ok outA) ∧
+    (∃ outB, mapPipeline t0.flatten { cfg with dropLevel := none, flatten := false } vote ids cells
+      order = .ok outB) := by
+  obtain ⟨hm, _⟩ := dropLevel_hierarchy hdrop
+  obtain ⟨pre, cl, post, hs⟩ := split_of_mem_ne_getLast hm (dropLevel_not_leaf hdrop)
+  exact flatten_drop_both_succeed t0 t' cfg vote l cl ll pre post ids cells order hdrop hs hleaf
+    (wfb_of_validate hval hd) hv hlen hnd hproc hcs horder
+
+example : (∃ outA, mapPipeline exTree { dropLevel := some 1, flatten := true, chunkSize := 2, nProc := 2 }
+      exVote [7, 3, 9] [0, 1, 2] [1, 0] = .ok outA) ∧
+    (∃ outB, mapPipeline exTree.flatten { dropLevel := none, flatten := false, chunkSize := 2, nProc := 2 }
+      exVote [7, 3, 9] [0, 1, 2] [1, 0] = .ok outB) :=
+  flatten_drop_both_succeed_of_validate exTree exDropped { chunkSize := 2, nProc := 2 } exVote 1 2
+    [7, 3, 9] [0, 1, 2] [1, 0] (by rfl) (by decide) exTree_accepted.1 exTree_accepted.2 (exVote_ok _)
+    rfl (by decide) (by decide) (by decide) (by decide)
+
+example : ∀ outA outB,
+    mapPipeline exTree { dropLevel := some 1, flatten := true, chunkSize := 2, nProc := 2 } exVote
+      [7, 3, 9] [0, 1, 2] [1, 0] = .ok outA →
+    mapPipeline exTree.flatten { dropLevel := none, flatten := false, chunkSize := 2, nProc := 2 } exVote
+      [7, 3, 9] [0, 1, 2] [1, 0] = .ok outB →
+    ∃ a b, outA[2]? = some a ∧ outB[2]? = some b ∧ a.cellId = b.cellId ∧
+      a.levels.lookup 2 = b.levels.lookup 2 ∧ (b.levels.lookup 2).isSome ∧
+      ∀ cp ∈ pairsOf exTree.hierarchy.reverse,
+        ∃ ec pn, a.levels.lookup cp.1 = some ec ∧
+          exTree.childToParent cp.1 ec.assignment = some pn ∧
+          a.levels.lookup cp.2 = some (inferred ec pn) :=
+  fun outA outB hA hB =>
+    flatten_drop_eq_of_validate exTree exDropped { chunkSize := 2, nProc := 2 } exVote 1 2 [7, 3, 9]
+      [0, 1, 2] [1, 0] (by rfl) (by decide) exTree_accepted.1 exTree_accepted.2 (exVote_ok _) rfl
+      (by decide) (by decide) (by decide) (by decide) outA outB hA hB 2 9 2 rfl rfl
 
 end CTM.C17
